@@ -89,6 +89,24 @@ func drawC08(t *rapid.T) caseC08 {
 			c.Steps = []stepW2{{Op: "write", Seg: &first, More: r[1:]}, {Op: "close"}}
 		}
 	}
+	if rapid.IntRange(0, 11).Draw(t, "mixwrite") == 0 {
+		// a few hundred kilobytes of interleaved literal runs and copies in one
+		// or two writes: several chunk limits inside one call
+		mk := func() *gen.Seg {
+			return &gen.Seg{Kind: "mix", Len: rapid.IntRange(100000, 400000).Draw(t, "mixlen"), Seed: rapid.Uint64().Draw(t, "mixseed"),
+				K: rapid.SampledFrom([]int{3, 40, 200}).Draw(t, "mixk"), Dist: rapid.SampledFrom([]int{0, 4096, 65536}).Draw(t, "mixdist")}
+		}
+		c.Steps = []stepW2{{Op: "write", Seg: mk()}}
+		if rapid.Bool().Draw(t, "mixtwo") {
+			c.Steps = append(c.Steps, stepW2{Op: "flush"}, stepW2{Op: "write", Seg: mk()})
+		}
+		c.Steps = append(c.Steps, stepW2{Op: "close"})
+	}
+	if c.Cfg.Matcher == 0 && c.Cfg.EffDict() >= 65536 && rapid.IntRange(0, 11).Draw(t, "repchain") == 0 {
+		r := gen.RepChainRecipe(t)
+		first := r[0]
+		c.Steps = []stepW2{{Op: "write", Seg: &first, More: r[1:]}, {Op: "close"}}
+	}
 	if c.Cfg.Matcher == 0 && rapid.IntRange(0, 9).Draw(t, "bigwrite") == 0 {
 		// ONE Write call that crosses both chunk limits: poorly compressible
 		// data (a chunk closed by the 64 KiB compressed limit, leaving bytes
@@ -311,9 +329,93 @@ func stepsString(s []stepW2) string {
 	return r
 }
 
+// limitScan enumerates histories that place each kind of operation at every
+// fill level of an LZMA2 chunk that is about to reach its 64 KiB compressed
+// limit: prefix (a seed block, 1 MiB of zeros, compressible text), R random
+// bytes, then the operation under test. The input offset L0 at which the
+// unmodified-looking encoder closes the chunk is measured with the library
+// itself (the chunk layout of prefix + random data, parsed by the reference
+// decoder); R runs over L0-56 .. L0+8, so the operation is attempted with
+// every remaining space from about 0 to 64 bytes.
+func limitScan(rec *ev.Rec, try func(caseC08) bool) bool {
+	kinds := []string{"far", "rep", "near", "lit"}
+	for ki, kind := range kinds {
+		cfg := gen.Cfg{DefProps: true, DictCap: 1 << 16, Matcher: 0}
+		prefix := gen.Recipe{{Kind: "random", Len: 400, Seed: 77}, {Kind: "text", K: 2, Len: 3000, Seed: 78}}
+		if kind == "far" {
+			cfg.DictCap = 0 // default 8 MiB: a distance beyond 1 MiB needs it
+			prefix = gen.Recipe{{Kind: "random", Len: 400, Seed: 77}, {Kind: "zeros", Len: 1<<20 + 1000}, {Kind: "text", K: 2, Len: 3000, Seed: 78}}
+		}
+		plen := prefix.Len()
+		// measure where the chunk that holds the start of the random region ends
+		var buf bytes.Buffer
+		w, err := cfg.W2().NewWriter2(&buf)
+		if err != nil {
+			rec.Incomplete("limit scan: " + err.Error())
+			return false
+		}
+		probe := append(append(gen.Recipe{}, prefix...), gen.Seg{Kind: "random", Len: 70000, Seed: 79})
+		if _, err := w.Write(probe.Expand()); err != nil {
+			rec.Class("limit_scan_probe_fails(reported by the generated cases)")
+			continue
+		}
+		if err := w.Close(); err != nil {
+			rec.Class("limit_scan_probe_fails(reported by the generated cases)")
+			continue
+		}
+		res, err := ref.DecodeLZMA2(buf.Bytes(), uint32(cfg.EffDict()), true, nil, 0, 0, 0)
+		if err != nil {
+			rec.Class("limit_scan_probe_invalid(reported by the generated cases)")
+			continue
+		}
+		end, l0 := 0, -1
+		for _, ck := range res.Chunks {
+			end += ck.USize
+			if end > plen && ck.Kind >= ref.CkL {
+				l0 = end - plen
+				break
+			}
+		}
+		if l0 < 1000 {
+			rec.Incomplete(fmt.Sprintf("limit scan (%s): no compressed chunk ends inside the random region", kind))
+			return false
+		}
+		for r := l0 - 56; r <= l0+8; r++ {
+			if (r+ki)%rec.Shards != rec.Shard {
+				continue
+			}
+			segs := append(append(gen.Recipe{}, prefix...), gen.Seg{Kind: "random", Len: r, Seed: 79})
+			switch kind {
+			case "far":
+				segs = append(segs, gen.Seg{Kind: "copyback", Dist: plen + r, Len: 40})
+			case "rep":
+				for i := 0; i < 12; i++ {
+					segs = append(segs, gen.Seg{Kind: "copyback", Dist: 500 + 700*(i%4), Len: 273})
+				}
+			case "near":
+				segs = append(segs, gen.Seg{Kind: "copyback", Dist: 1000, Len: 18})
+			case "lit":
+				segs = append(segs, gen.Seg{Kind: "random", Len: 64, Seed: 80})
+			}
+			segs = append(segs, gen.Seg{Kind: "text", K: 4, Len: 200, Seed: 81})
+			first := segs[0]
+			c := caseC08{Cfg: cfg, Steps: []stepW2{{Op: "write", Seg: &first, More: segs[1:]}, {Op: "close"}}}
+			rec.Class("limit_scan=" + kind)
+			if !try(c) {
+				return false
+			}
+		}
+	}
+	return true
+}
+
 func TestC08(t *testing.T) {
 	rec := ev.New("C08", "exploration")
-	rec.Rule = "stateful generation: rapid draws a Writer2Config passing Verify and a history of up to 12 calls over {Write(segment), Write(nil), Flush, Close} followed by calls after Close; model = concatenation of accepted bytes; invariant after every step: calls succeed before Close; after a Flush the sink is a legal chunk sequence without end marker that the reference decoder decodes to exactly the model and Reader2 decodes (with 0x00 appended) to the model; a Flush with nothing pending leaves the sink unchanged; after Close reference decoder, Reader2 and liblzma decode the sink to the model; every later call fails and emits nothing; non-trivial = >= 1 Flush after data and >= 2 chunks; distinct = hash of the history"
+	rec.Rule = "stateful generation: rapid draws a Writer2Config passing Verify and a history of up to 12 calls over {Write(segment), Write(nil), Flush, Close} followed by calls after Close; model = concatenation of accepted bytes; invariant after every step: calls succeed before Close; after a Flush the sink is a legal chunk sequence without end marker that the reference decoder decodes to exactly the model and Reader2 decodes (with 0x00 appended) to the model; a Flush with nothing pending leaves the sink unchanged; after Close reference decoder, Reader2 and liblzma decode the sink to the model; every later call fails and emits nothing; in addition a limit scan: four kinds of operation (match beyond 1 MiB, rep chain, near match, literals) placed at every fill level 0..64 bytes below the 64 KiB compressed limit of a chunk (position measured with the library, 65 offsets per kind); non-trivial = >= 1 Flush after data and >= 2 chunks; distinct = hash of the history"
 	rec.Assumptions = []string{"histories <= 12 steps and <= 5 MiB", "BinaryTree: run-like segments <= 12000 bytes"}
+	enumerate(t, rec, checkC08, func(try func(caseC08) bool) { limitScan(rec, try) })
+	if t.Failed() {
+		return
+	}
 	drive(t, rec, drawC08, checkC08)
 }
